@@ -311,7 +311,7 @@ func runCase(c *vlib.Ctx, specs []stores.MetricSpec, omitProg, emitTS bool) {
 
 func main() {
 	c := vlib.Init("exploration")
-	names := []string{"foo", "foo-bar", "9bad"}
+	names := []string{"foo", "foo-bar", "9bad", "foo-bar-baz"}
 	progs := []string{"p", "q"}
 	keyLists := [][]string{{}, {"a"}, {"a", "b"}, {"a-b"}, {"prog"}, {"le"}}
 	vals := []string{"x", "", "\xff"}
@@ -323,6 +323,9 @@ func main() {
 					for _, ls := range stores.LabelChoices(ks, vals) {
 						for rot := 0; rot < 6; rot += c.Pick(2, 1) {
 							singles = append(singles, stores.MetricSpec{Shape: sh, Name: n, Prog: p, Keys: ks, Labels: ls, ValRot: rot})
+							if sh.Type == metrics.Buckets && n == "foo" {
+								singles = append(singles, stores.MetricSpec{Shape: sh, Name: n, Prog: p, Keys: ks, Labels: ls, ValRot: rot, ShuffledRanges: true})
+							}
 						}
 					}
 				}
